@@ -336,7 +336,7 @@ func (c *Ctx) Reachable() map[*ssa.Function]bool {
 			push(a) // a closure created by a reachable function is assumed callable
 		}
 		// function values referenced (method values, funcs stored in tables)
-		for _, b := range f.Blocks {
+		for _, b := range blocksOf(f) {
 			for _, in := range b.Instrs {
 				for _, op := range in.Operands(nil) {
 					if op == nil || *op == nil {
@@ -392,7 +392,7 @@ func must(cond bool, format string, a ...interface{}) {
 
 // eachInstr visits every instruction of fn.
 func eachInstr(fn *ssa.Function, f func(ssa.Instruction)) {
-	for _, b := range fn.Blocks {
+	for _, b := range blocksOf(fn) {
 		for _, in := range b.Instrs {
 			f(in)
 		}
